@@ -10,6 +10,14 @@
 mod reusable_box;
 mod vector;
 
+// Verification hook, off by default: with `--cfg eyeball_verif` the broadcast channel is taken from
+// a drop-in crate that delegates to tokio's channel and adds scheduler-controlled preemption points
+// around receive operations. Without the cfg this is exactly `tokio::sync::broadcast`.
+#[cfg(eyeball_verif)]
+pub(crate) use eyeball_verif_broadcast as broadcast_impl;
+#[cfg(not(eyeball_verif))]
+pub(crate) use tokio::sync::broadcast as broadcast_impl;
+
 pub use vector::{
     ObservableVector, ObservableVectorEntries, ObservableVectorEntry, ObservableVectorTransaction,
     ObservableVectorTransactionEntries, ObservableVectorTransactionEntry, VectorDiff,
